@@ -545,11 +545,11 @@ func (m *Model) Predict(c Cmd) Pred {
 		}
 		return Pred{Class: MustOK, Alts: []*Model{m.Clone()}, ChangesNothing: true}
 	case "new_epic":
-		return m.predictNew(c, true)
+		return m.predictNew(c, true).weakenIfOversized(c)
 	case "new_task":
-		return m.predictNew(c, false).weakenIfWaitCycle()
+		return m.predictNew(c, false).weakenIfWaitCycle().weakenIfOversized(c)
 	case "set":
-		return m.predictSet(c).weakenIfWaitCycle()
+		return m.predictSet(c).weakenIfWaitCycle().weakenIfOversized(c)
 	case "claim_id":
 		id := m.Resolve(c.ID)
 		if c.Agent == "" {
@@ -673,7 +673,7 @@ func (m *Model) Predict(c Cmd) Pred {
 		p.Alts = []*Model{n}
 		return p
 	case "plan":
-		return m.predictPlan(c)
+		return m.predictPlan(c).weakenIfOversized(c)
 	}
 	harnessf("Predict: unknown op %q", c.Op)
 	return Pred{}
@@ -1158,6 +1158,30 @@ func (m *Model) WaitCycle() bool {
 		}
 	}
 	return findCycle(deps) != nil
+}
+
+// weakenIfOversized: text near or beyond what one event line can hold (10 MiB
+// encoded) may be refused - "for any length the log format admits" - but if it
+// is accepted it must come back, and the store must stay readable.
+func (p Pred) weakenIfOversized(c Cmd) Pred {
+	n := 0
+	fields := []*string{c.Title, c.Body}
+	if c.Plan != nil {
+		fields = append(fields, c.Plan.Title, c.Plan.Body)
+		for _, t := range c.Plan.Tasks {
+			fields = append(fields, t.Title, t.Body)
+		}
+	}
+	for _, s := range fields {
+		if s != nil && len(*s) > n {
+			n = len(*s)
+		}
+	}
+	if n > 9*1024*1024 && p.Class == MustOK {
+		p.Class = Either
+		p.Why = "text close to or beyond the size one event line can hold"
+	}
+	return p
 }
 
 func (p Pred) weakenIfWaitCycle() Pred {
